@@ -12,7 +12,7 @@ CLAIMS = {
     "C05": dict(
         text="Unbounded Lean theorems over any characteristic-0 field: fold_spec (three-way rule via the flat mirror n-1-i), fold_mass, fold_idem, fold_polarity for every shape; "
              "model (transcribed Folded::from_spectrum/into_spectrum) compared exactly with the implementation on dyadic data incl. NaN/inf and all four fills.",
-        note=NOTE_COMMON + " f64 evaluation is outside the theorems; the correspondence uses values whose binary64 sums/halves are exact. CLI fill mapping is checked once the text model exists (C07)."),
+        note=NOTE_COMMON + " f64 evaluation is outside the theorems; the correspondence uses values whose binary64 sums/halves are exact. CLI fill mapping is checked once the text model exists (C07). Spectra of 65537-262144 entries (`c05.big`) are beyond the list-based model: there the implementation's output is held against the statements of fold_mass / fold_spec / fold_idem / reverse_is_mirror (consequences checked on the implementation, not a model comparison)."),
     "C04": dict(
         text="Unbounded Lean theorems over any commutative additive monoid: marginalize_eq_spec (for every valid axis list in any order the result is the sum over the removed axes, "
              "remaining axes in original order: the sort + `original - removed` shift is proved correct for any number of axes and unequal lengths), permutation invariance, "
@@ -49,7 +49,7 @@ CLAIMS = {
     "C10": dict(
         text="Lean theorems: every counted site has weight exactly one (unit entry or product of hypergeometric distributions), conservation mass + skipped = records, a run fails exactly at the first stopping record "
              "(strict: first skipped site or earlier genotype error) and strict = non-strict otherwise, the CLI writes stdout iff the run succeeded, summary line iff skipped > 0; faults injected at every stream position on the real binary.",
-        note=NOTE_COMMON + " The contig:pos reported for a corrupt record line comes from noodles' reader state and is not compared."),
+        note=NOTE_COMMON + " The contig:pos reported for a corrupt record line comes from noodles' reader state and is not compared. Runs of 30000-200000 generated records (`c10.mass`, also under C02) are beyond what the model is evaluated on: there the binary's own figures are held against the conservation theorem (mass + skipped = records), a consequence checked on the implementation rather than a model comparison. Diagnostics are read off stderr by their numbers and the site they name; a rewording the harness cannot read makes a case not comparable (reported as a correspondence that no longer checks, without a failing input)."),
     "C11": dict(
         text="Lean theorems: readSite = pure siteSpec for any prior buffer contents (the explicit reset and the per-record zeroed projection buffer), run = entrywise sum of per-record contributions, additivity over concatenation, "
              "permutation invariance; per-record site-kind sequences from the real reader compared with the model over all ordered kind pairs, splits and permutations.",
